@@ -80,7 +80,7 @@ class Combiner(Node):
         self.worker_thread = simpy.Resource(env, capacity=self.work_capacity)  # Resource for worker threads
         self.time_per_work_occupancy = [0.0 for _ in range(self.work_capacity+1)]  # Time spent by each worker thread
         self.stats={"total_time_spent_in_states": {"SETUP_STATE": 0.0, "IDLE_STATE":0.0, "PROCESSING_STATE": 0.0,"BLOCKED_STATE":0.0 },
-                    "last_state_change_time": None, "num_item_processed": 0, "num_item_discarded": 0,"processing_delay":[],"out_edge_selection":[]}
+                    "last_state_change_time": self.env.now, "num_item_processed": 0, "num_item_discarded": 0,"processing_delay":[],"out_edge_selection":[]}
        
      
         
